@@ -11,10 +11,12 @@
 
    hash : the string hash (caching.StrHash) is a parameter - collisions are allowed. *)
 From Coq Require Import List Arith Bool NArith ZArith Lia.
+From SV.Gen Require Import AstConsts.
 From SV.Ast Require Import Linked Tree.
 Import ListNotations.
 
-Definition THRESHOLD : nat := 16.        (* _Threshold_Index *)
+(* _Threshold_Index, regenerated from /repo/ast/node.go on every run (Gen/AstConsts.v) *)
+Definition THRESHOLD : nat := Eval compute in Threshold_Index.
 
 (* type Pair struct { hash uint64; Key string; Value Node } *)
 Definition pair (X : Type) : Type := (N * bytes * X)%type.
